@@ -17,6 +17,8 @@ R12.7 the SQL transpiler carries no state from one statement into the next: scra
       re-initialised on every path of the per-statement loop, handlers rebind attributes only inside restoring context managers,
       parameter-scope stacks are balanced (independent statements keep their textual order after the sort, so leaked state makes the
       result depend on where a statement is written)
+R12.8 the interpreter restores every context attribute (is_from_*, ruleset_*, ...) that a handler sets, on every normal path out of
+      the handler (two reasoned exceptions guarded by such flags)
 Not decided: that equal dependency graphs give equal run() results (runtime).
 """
 from __future__ import annotations
@@ -392,5 +394,39 @@ def run(rep: Report, tier: str) -> None:
     rep.rule("R12.7", "SQL transpiler: per-statement scratch state re-initialised on every path; attribute rebinding only in restoring scopes; scope stacks balanced")
     from sa import transp
     transp.state_discipline(P, rep, "R12.7", parts="abd")
+    # ---- R12.8: interpreter context flags set by a handler are restored on every normal path out of it ----
+    rep.rule("R12.8", "InterpreterAnalyzer: a context attribute set by a handler is restored (reset or re-assigned from a saved value) on every normal path out of it")
+    IA = P.cls("vtlengine.Interpreter.InterpreterAnalyzer")
+    CONTEXT_OK = {
+        ("visit_Aggregation", "aggregation_dataset"): "consulted only while is_from_having / is_from_grouping is set, and both flags are restored by this handler; every branch that sets it clears it after the having/grouping visit",
+        ("visit_RegularAggregation", "regular_aggregation_dataset"): "consulted only while is_from_regular_aggregation is set; the handler restores the flag, and the next clause overwrites the dataset before reading it",
+    }
+    n128 = 0
+    for name_, m_ in IA.methods.items():
+        if name_ in ("visit_Start", "__post_init__", "__init__"):
+            continue
+        sets_ = [(a_, n_) for a_, k_, n_ in transp._self_attr_writes(m_.node) if k_ == "rebind" and isinstance(n_, (ast.Assign, ast.AnnAssign))]
+        if not sets_:
+            continue
+        g_ = CFG(m_.node)
+        for attr_, node_ in sets_:
+            v_ = node_.value
+            if v_ is None or (isinstance(v_, ast.Constant) and v_.value in (False, None)) or transp._is_fresh(v_) or (isinstance(v_, ast.Name) and v_.id.startswith(("saved", "old", "prev"))):
+                continue  # this IS a reset / restore
+            n128 += 1
+            key_ = f"{name_}/{attr_}"
+            rep.instance("R12.8", key_, nontrivial=True)
+            if (name_, attr_) in CONTEXT_OK:
+                rep.exemption("R12.8", key_, CONTEXT_OK[(name_, attr_)])
+                continue
+            start_ = [x for x in g_.nodes if x.stmt is node_]
+            resets_ = {x for x in g_.nodes if x.stmt is not None and x.kind == "stmt" and x.stmt is not node_ and isinstance(x.stmt, (ast.Assign, ast.AnnAssign))
+                       and any(src(t) == f"self.{attr_}" for t in (x.stmt.targets if isinstance(x.stmt, ast.Assign) else [x.stmt.target]))}
+            p_ = g_.path_avoiding(start_[0], lambda x: x is g_.exit, lambda x: x in resets_, follow_exc=False) if start_ else None
+            if p_ is not None:
+                rep.add(Finding("R12.8", f"R12.8/{key_}", m_.module.rel, node_.lineno, m_.qualname,
+                                f"self.{attr_} is set here and there is a normal path to the end of {name_} that does not restore it: the context of this construct stays "
+                                f"switched on for whatever is analysed next, so the analysis of a later statement depends on this one having come first", describe_path(p_)))
+    rep.floor("R12.8 context attribute sets", n128, 8)
     rep.assumptions = ["visit dispatch is by exact class name (`visit_` + type(node).__name__)",
                        "operand-mutation sites present on the reference tree are taken as designed behaviour (listed exemptions)"]
